@@ -423,6 +423,33 @@ def gamma_family(tier, seed):
                 per = g.E_gsf(a1=q1 + k1, a2=q2 + k2)
                 if not np.allclose(per, base, atol=1e-8 * abs(Eg).max()):
                     msgs.append('not periodic: shift by (%d,%d) periods changes the energy by %g' % (k1, k2, abs(per - base).max()))
+            # without smoothing the surface is the nearest sample on the torus: at the samples themselves, at their periodic images (the a = 1 edge and whole periods
+            # included) and just below an integer (nearest sample: the one at 0)
+            try:
+                raw = g.E_gsf(a1=a1.copy(), a2=a2.copy(), smooth=False)
+                if not np.allclose(raw, Eg, atol=1e-9 * abs(Eg).max()):
+                    msgs.append('smooth=False does not return the input energy at the sampled shifts (max error %g)' % abs(raw - Eg).max())
+                e00 = Eg[np.argmin(a1 ** 2 + a2 ** 2)]
+                for (t1, t2) in ((1.0, 0.0), (0.0, 1.0), (1.0, 1.0), (2.0, 3.0), (1.0 - 1e-3, 0.0), (0.0, 1.0 - 1e-3), (-1e-3, 1.0)):
+                    v = float(np.ravel(g.E_gsf(a1=np.array([t1]), a2=np.array([t2]), smooth=False))[0])
+                    if not np.isclose(v, e00, atol=1e-9 * abs(Eg).max()):
+                        msgs.append('smooth=False at (%g, %g), a periodic image of (or nearest to) the sample at (0, 0): %r, the sample holds %r' % (t1, t2, v, float(e00)))
+                        break
+                i_s = int(np.argmin((a1 - a1[len(a1) // 3]) ** 2 + (a2 - a2[len(a2) // 3]) ** 2))
+                for k1, k2 in ((1, 0), (0, 1), (-1, 2)):
+                    v = float(np.ravel(g.E_gsf(a1=np.array([a1[i_s] + k1]), a2=np.array([a2[i_s] + k2]), smooth=False))[0])
+                    if not np.isclose(v, Eg[i_s], atol=1e-9 * abs(Eg).max()):
+                        msgs.append('smooth=False is not periodic: sample (%g, %g) moved by (%d, %d) periods gives %r, the sample holds %r' % (a1[i_s], a2[i_s], k1, k2, v, float(Eg[i_s])))
+                        break
+                if hasdelta:
+                    rawd = g.delta(a1=a1.copy(), a2=a2.copy(), smooth=False)
+                    if not np.allclose(rawd, dl, atol=1e-9):
+                        msgs.append('smooth=False does not return the input plane separation at the sampled shifts')
+                    vd = float(np.ravel(g.delta(a1=np.array([1.0]), a2=np.array([0.0]), smooth=False))[0])
+                    if not np.isclose(vd, dl[np.argmin(a1 ** 2 + a2 ** 2)], atol=1e-9):
+                        msgs.append('smooth=False plane separation at (1, 0) differs from the sample at (0, 0)')
+            except Exception as e:
+                msgs.append('smooth=False queries raised %s: %s' % (type(e).__name__, e))
             pos = g.a12_to_pos(q1, q2)
             for p_one, want in zip(pos, base):
                 if not np.isclose(g.E_gsf(pos=p_one), want, atol=1e-8 * abs(Eg).max()):
@@ -504,6 +531,24 @@ def gamma_family(tier, seed):
                 msgs.append('the applied stress stored in the model changed: %r' % pn.tau.tolist())
             if msgs:
                 fails.append({'obligation': 'pn.solve', 'key': key, 'input': key, 'detail': '; '.join(msgs[:3])})
+        # one model object, several grids handed over as arguments: every evaluation equals that of a fresh object on that grid (nothing remembered from the grid before)
+        for cdiff in (False, True):
+            evals += 1
+            key = 'two grids on one object,cdiffelastic=%s' % cdiff
+            try:
+                shared = am.defect.SDVPN(volterra=volterra, gamma=gamma, cdiffelastic=cdiff)
+                msgs = []
+                for (xmax, hw) in ((20 * a, 1.0 * a), (6 * a, 0.7 * a), (35 * a, 1.5 * a), (20 * a, 1.0 * a)):
+                    xg, dg = am.defect.pn_arctan_disregistry(xmax=xmax, xnum=41, burgers=b, halfwidth=hw)
+                    fresh = am.defect.SDVPN(volterra=volterra, gamma=gamma, cdiffelastic=cdiff)
+                    for nm in ('elastic_energy', 'misfit_energy', 'total_energy'):
+                        got, want = getattr(shared, nm)(xg, dg), getattr(fresh, nm)(xg, dg)
+                        if not np.isclose(got, want, rtol=1e-10, atol=1e-12):
+                            msgs.append('%s(x, disregistry) on a grid of spacing %.4g after another grid: %r, a fresh object gives %r' % (nm, xg[1] - xg[0], got, want))
+                if msgs:
+                    fails.append({'obligation': 'pn.grids', 'key': key, 'input': key, 'detail': '; '.join(msgs[:2])})
+            except Exception as e:
+                fails.append({'obligation': 'pn.grids', 'key': key, 'input': key, 'detail': 'raised %s: %s' % (type(e).__name__, e)})
         # every combination of the documented finite-difference / stress-form options must evaluate, and total = sum of terms
         x, dis = am.defect.pn_arctan_disregistry(xmax=10 * a, xnum=21, burgers=b, halfwidth=1.0 * a)
         shear = np.array([[0, 0.02, 0], [0.02, 0, 0], [0, 0, 0]])
